@@ -206,6 +206,19 @@ func init() {
 			fixAmbiguity(t.Stages)
 			t.Recs = genRecs(r, t.Stages, 8)
 			if r.Intn(10) == 0 {
+				// a template (or rename) rewriting a label that lives in an attribute map shared by the records: every
+				// record is rewritten from the value the storage delivered, not from what the previous record left
+				l := pick(r, []string{"a", "c", "lvl"})
+				t.Share = true
+				st := LStage{Kind: "lblfmt", Tpls: []LTplLabel{{Dst: l, T: []TplPart{{Kind: "field", Text: l}, {Kind: "lit", Text: "-x"}}}}}
+				if r.Intn(3) == 0 {
+					st = LStage{Kind: "lblfmt", Renames: [][2]string{{l, "zz"}}}
+				}
+				t.Stages = []LStage{st}
+				for i := range t.Recs {
+					t.Recs[i].Attrs = [][2]string{{l, "x"}, {"zz", "1"}}
+				}
+			} else if r.Intn(10) == 0 {
 				// a failing template on a record that already went through an error: the parser stage flags the line,
 				// `drop __error__` (or keep without it) removes the flag but not the details, then the template fails and
 				// must flag the line again
@@ -262,6 +275,21 @@ func init() {
 					t.Recs[i].Attrs = [][2]string{{"q", "x\",r=\"y"}}
 					t.Recs[j].Attrs = [][2]string{{"q", "x"}, {"r", "y"}}
 					t.Recs[i].Body, t.Recs[j].Body = "x", "x"
+				}
+			}
+			// a label_format template rewriting a label that comes from an attribute map SHARED by the records (one
+			// map per container in the Docker backend): every record must be rewritten from the original value
+			if r.Intn(8) == 0 {
+				l := pick(r, []string{"a", "c", "lvl"})
+				attrs := [][2]string{{l, "x"}, {"zz", "1"}}
+				t.Share = true
+				t.Sel, t.CapsLabel, t.CapsLine = nil, nil, nil
+				t.Stages = []LStage{{Kind: "lblfmt", Tpls: []LTplLabel{{Dst: l, T: []TplPart{{Kind: "field", Text: l}, {Kind: "lit", Text: "-x"}}}}}}
+				if r.Intn(2) == 0 {
+					t.Stages = append(t.Stages, LStage{Kind: "drop", Labels: []string{"msg"}})
+				}
+				for i := range t.Recs {
+					t.Recs[i].Attrs = attrs
 				}
 			}
 			// typed labels: `| json` exposes numbers and booleans as typed values; records that differ
